@@ -16,15 +16,15 @@ open StunVerif
 
 /-- `MessageType::from_bytes` on any byte string -/
 theorem msg_type_total (d : Bytes) : ∀ f, msgTypeFromBytes d ≠ .error (.fault f) := by
-  sorry
+  exact fun f => msgTypeFromBytes_no_fault d f
 
 /-- `MessageHeader::from_bytes` on any byte string -/
 theorem header_total (d : Bytes) : ∀ f, headerFromBytes d ≠ .error (.fault f) := by
-  sorry
+  exact fun f => headerFromBytes_no_fault d f
 
 /-- `RawAttribute::from_bytes` on any byte string (no length bound: also beyond 65535 bytes) -/
 theorem raw_total (d : Bytes) : ∀ f, rawFromBytes d ≠ .error (.fault f) := by
-  sorry
+  exact fun f => rawFromBytes_no_fault d f
 
 /-- `Message::from_bytes` on any byte string -/
 theorem message_total (b : Bytes) : ∀ f, msgFromBytes b ≠ .error (.fault f) := C02.parse_total b
@@ -36,16 +36,20 @@ theorem typed_total (k : Kind) (raw : RawAttr) : ∀ f, fromRaw k raw ≠ .error
 /-- every step of an attribute walk consumes at least four bytes: the termination argument of the
     parser, the iterator and the integrity scan -/
 theorem walk_progress (a : RawAttr) : 4 ≤ a.paddedLen := by
-  sorry
+  exact paddedLen_ge a
 
 /-- fuel = buffer length always suffices: giving the iterator more fuel changes nothing -/
 theorem iter_fuel_suffices (data : Bytes) (extra : Nat) (seen lastMI : Bool) :
     iterGo (data.length + extra) data seen lastMI = iterGo data.length data seen lastMI := by
-  sorry
+  exact iterGo_fuel_irrel _ _ data seen lastMI (by omega) (by omega)
 
 /-- typed extraction on an accepted message never faults -/
 theorem attribute_total (m : Msg) (k : Kind) : ∀ f, m.attribute k ≠ .error (.fault f) := by
-  sorry
+  intro f
+  unfold Msg.attribute
+  split
+  · intro h; cases h
+  · exact C08.decode_total k _ f
 
 /-- `validate_integrity` on an accepted message with arbitrary credentials -/
 theorem validate_total (H : Hashes) (b : Bytes) (m : Msg) (c : Creds) (hp : msgFromBytes b = .ok m) :
@@ -59,6 +63,31 @@ theorem police_total (b : Bytes) (m : Msg) (sup req : List Nat) (hp : msgFromByt
     | none => True
     | some r => (r.attrs.map BAttr.ty = [0x8022, 0x0009] ∨ r.attrs.map BAttr.ty = [0x8022, 0x0009, 0x000A]) ∧
                 ∀ u, BAttr.raw ⟨0x000A, u⟩ ∈ r.attrs → u.length < 65536 := by
-  sorry
+  rw [checkAttributeTypes_eq]
+  cases h : Spec.police (m.iter.map (·.ty)) sup req with
+  | unknown420 u =>
+    simp only
+    obtain ⟨hne, rfl⟩ := police_unknown _ _ _ _ h
+    have h1 := iter_length_lt hp
+    have h2 := List.length_filter_le (fun t => decide (t < 0x8000 ∧ t ∉ sup)) (m.iter.map (·.ty))
+    rw [List.length_map] at h2
+    rw [unknownAttributesResp_cons m _ hne]
+    refine ⟨Or.inr rfl, ?_⟩
+    intro v hv
+    simp only [List.mem_cons, BAttr.raw.injEq, RawAttr.mk.injEq, List.not_mem_nil, or_false] at hv
+    rcases hv with hv | hv | hv
+    · exact absurd hv.1 (by decide)
+    · exact absurd hv.1 (by decide)
+    · rw [hv.2, flatMap_enc16_length]; omega
+  | bad400 =>
+    simp only
+    rw [badRequestResp_eq]
+    refine ⟨Or.inl rfl, ?_⟩
+    intro v hv
+    simp only [List.mem_cons, BAttr.raw.injEq, RawAttr.mk.injEq, List.not_mem_nil, or_false] at hv
+    rcases hv with hv | hv
+    · exact absurd hv.1 (by decide)
+    · exact absurd hv.1 (by decide)
+  | pass => trivial
 
 end StunVerif.C01
